@@ -1,6 +1,6 @@
 """C09 -- dds.load always sees the latest kept value and invalidates its readers."""
 import re
-from contracts import indirect, introspect_compose, api
+from contracts import indirect, introspect_compose, api, inspect_call
 
 ID = "C09"
 LEVEL = "other"
@@ -23,7 +23,7 @@ for _n in ("producer_has_run", "serves_the_value_kept_by_this_evaluation", "read
     REPLAY["load#ensures:" + _n] = "h_load.load_in_eval"
 REPLAY["load#signals:only_if_read_before_produced_or_invalid_path"] = "h_load.load_in_eval"
 REPLAY["load#signals:only_coded_dds_errors"] = "h_load.load_in_eval"
-_OWN = re.compile(r"^(FunctionIndirectInteractionUtils\.|load#|InspectFunction\.inspect_fun#(ensures:(return_sig_covers_every_loaded_path_with_its_resolved_signature|result_loaded_paths)|assert|key_present))")
+_OWN = re.compile(r"^(InspectFunction\.inspect_call#ensures:(kept_path_registered_for_later_loads|plain_call_registers_nothing|nothing_registered|kept_call_carries_its_store_path)|FunctionIndirectInteractionUtils\.|load#|InspectFunction\.inspect_fun#(ensures:(return_sig_covers_every_loaded_path_with_its_resolved_signature|result_loaded_paths)|assert|key_present))")
 
 
 def owns(name, kind):
@@ -31,7 +31,7 @@ def owns(name, kind):
 
 
 def specs():
-    return [c() for c in indirect.SPECS] + [api.load_standalone()] + [c() for c in introspect_compose.SPECS]
+    return [c() for c in indirect.SPECS] + [api.load_standalone()] + [c() for c in introspect_compose.SPECS] + [inspect_call.inspect_call()]
 
 
 def bounded(tier, seed, pr):
